@@ -300,6 +300,27 @@ def apply_ops(unit, fn_text, log):
             if n == 0 and a.get('optional') != '1':
                 raise ExtractError('%s: macro %s! not found' % (unit.id, a['name']))
             log.append({'unit': unit.id, 'rule': a.get('rule', 'E1'), 'what': '%s!(..) x%d -> %s' % (a['name'], n, a.get('to', payload_txt.strip()))})
+        elif kind == 'bind':
+            # Rule E21: alpha-renaming of a LOCAL. The ghost code of the unit names a local of the real
+            # function (`canon`); the local is identified by the statement that introduces it (`find`,
+            # with the wildcard `$v` at the name). If the real text calls it differently, every identifier
+            # token with that name inside the unit is renamed to `canon` -- meaning-preserving as long as
+            # `canon` is not already in use there (checked).
+            spans = rustlex.find_tokens_b(s, a['find'])
+            if not spans:
+                if a.get('optional') == '1':
+                    continue
+                raise ExtractError('%s: bind anchor `%s` not found' % (unit.id, a['find']))
+            got = spans[0][2].get(a.get('var', 'v'))
+            canon = a['canon']
+            if got and got != canon:
+                toks = rustlex.tokens(s)
+                if any(t[0] == canon for t in toks):
+                    raise ExtractError('%s: bind: canonical name `%s` already used in the unit' % (unit.id, canon))
+                for t in reversed(toks):
+                    if t[0] == got:
+                        s = s[:t[1]] + canon + s[t[2]:]
+                log.append({'unit': unit.id, 'rule': a.get('rule', 'E21'), 'what': 'local `%s` alpha-renamed to `%s` (introduced by `%s`)' % (got, canon, a['find'])})
         elif kind == 'dropcall':
             s, n = replace_method_calls(s, a['name'])
             if n == 0 and a.get('optional') != '1':
@@ -1002,7 +1023,7 @@ def expand(group_path):
                     tail, i = payload_from(i + 1)
                 elif w2 == 'head':
                     head, i = payload_from(i + 1)
-                elif w2 in ('edit', 'macro', 'dropcall', 'chain', 'closure', 'forlines', 'letchain', 'wrap', 'whilelet', 'forin', 'foridx', 'replaceslice', 'strslice'):
+                elif w2 in ('edit', 'bind', 'macro', 'dropcall', 'chain', 'closure', 'forlines', 'letchain', 'wrap', 'whilelet', 'forin', 'foridx', 'replaceslice', 'strslice'):
                     pl, i = payload_from(i + 1)
                     unit.ops.append((w2, parse_kv(r2), pl))
                 else:
